@@ -248,6 +248,7 @@ pub struct RunResult {
     pub cb_gc_kinds: BTreeMap<String, u64>,
     pub cb_kinds: BTreeMap<String, u64>,
     pub nested_evals: u64,
+    pub nested_swallowed: u64,
     pub heuristic_gcs: u64,
     /// internal-invariant failures (G2..G5): (invariant, class, detail)
     pub failures: Vec<(String, String, String)>,
@@ -390,6 +391,7 @@ pub fn run_scenario(sc: &Scenario, spec: &SchedSpec, sched_seed: u64) -> RunResu
     r.cb_gc_kinds = ex.ctx.cb.cb_gc_kinds.clone();
     r.cb_kinds = ex.ctx.cb.cb_kinds.clone();
     r.nested_evals = ex.ctx.cb.nested_evals;
+    r.nested_swallowed = ex.ctx.cb.nested_failures_swallowed;
     r.touched = ex.ctx.cb.touched.clone();
     ex.ctx.remove_sched();
     r
@@ -655,6 +657,7 @@ fn collect_probes(p: &mut BTreeMap<String, u64>, run: &RunResult) {
     bump_by(p, "collection_with_string_stack_nonempty", s.with_string_stack);
     bump_by(p, "heuristic_collections", run.heuristic_gcs);
     bump_by(p, "reentrant_evaluations", run.nested_evals);
+    bump_by(p, "reentrant_evaluation_failed_and_outer_continued", run.nested_swallowed);
     for (k, v) in &run.cb_gc_kinds {
         bump_by(p, &format!("collection_inside_callback:{k}"), *v);
     }
